@@ -23,11 +23,13 @@ fn main() {
     match cmd.as_str() {
         "crash-child" => std::process::exit(crash::child(&args)),
         "dump" => std::process::exit(crash::dump(&args)),
+        "churn-child" => std::process::exit(crash::churn_child(&args)),
         _ => {}
     }
     let mut sink = util::Sink::new();
     match cmd.as_str() {
         "crash" => crash::run(&args, &mut sink),
+        "churn" => crash::churn(&args, &mut sink),
         "core-pp" => core_pp::run(seed, cases, &mut sink),
         "core-mp" => core_mp::run(seed, cases, &mut sink),
         "core-mp-corpus" => {
